@@ -37,6 +37,7 @@ theorem exec_after_open (o : DumpObj) (path : Path) :
     | unknown => simp [Eff.fallible] at he
     | buildFile => simp [Eff.fallible] at he
     | buildMem => simp [Eff.fallible] at he
+    | readBack => simp [Eff.fallible] at he
     | openW =>
       have hoe : o.openErr = none := by
         rcases ho with ho | ho
@@ -101,6 +102,12 @@ theorem exec_safe (o : DumpObj) (path : Path) :
       simp only [noFallibleAfterOpen] at hs
       simp only [exec, step] at h ⊢
       cases hv : o.unknown with
+      | ok u => cases u; simp only [hv, liftErr] at h ⊢; exact ih st hs hop f h hne
+      | error e => simp [liftErr]
+    | readBack =>
+      simp only [noFallibleAfterOpen] at hs
+      simp only [exec, step] at h ⊢
+      cases hv : o.readBack with
       | ok u => cases u; simp only [hv, liftErr] at h ⊢; exact ih st hs hop f h hne
       | error e => simp [liftErr]
     | getParser =>
@@ -470,6 +477,20 @@ theorem C18_unlink_witness :
         ∧ (run [.validate, .unlink, .getParser, .serialize, .newBuf, .buildMem, .openW, .writeBuf] obj fs path).1 path = none := by
   refine ⟨by decide, { serialize := .error .valueError }, (fun _ => some "good".toList), "p".toList, ?_, rfl, ?_⟩
     <;> simp [run, exec, step, liftErr]
+
+/-- Reading the written file back inside `dump` (seeded change C18-u5a) is a second validation pass AFTER the
+destination has been replaced: an object every writer accepts but the reader refuses makes the dump fail with the
+good copy already overwritten. -/
+theorem C18_readback_witness :
+    noFallibleAfterOpen [.validate, .getParser, .serialize, .newBuf, .buildMem, .openW, .writeBuf, .readBack] = false
+    ∧ ∃ (obj : DumpObj) (fs : FS) (path : Path),
+        (run [.validate, .getParser, .serialize, .newBuf, .buildMem, .openW, .writeBuf, .readBack] obj fs path).2
+            = .error (.readBack, .valueError)
+        ∧ fs path = some "good".toList
+        ∧ (run [.validate, .getParser, .serialize, .newBuf, .buildMem, .openW, .writeBuf, .readBack] obj fs path).1 path
+            = some "unreadable".toList := by
+  refine ⟨by decide, { serialize := .ok "unreadable".toList, readBack := .error .valueError },
+    (fun _ => some "good".toList), "p".toList, ?_, rfl, ?_⟩ <;> simp [run, exec, step, liftErr, FS.write]
 
 /-! ### non-vacuity -/
 example : noFallibleAfterOpen [.validate, .getParser, .serialize, .newBuf, .buildMem, .openW, .writeBuf] = true := by decide
